@@ -153,9 +153,12 @@ def updShard (infos : List DurInfo) (s : EShard) : EShard :=
 def nilInfos (eng : List EShard) (infos : List DurInfo) : List DurInfo :=
   infos.filter fun i => !(eng.any fun s => s.sid == i.sid && s.idx)
 
-/-- `ExpiredShards`, loaded part: the shard's own (cached) duration decides. -/
-def expiredLoaded (now : Int) (eng : List EShard) : List QItem :=
-  (eng.filter fun s => shardIsExpired now s.dur s.endT).map fun s => ⟨s.sid, s.gid, s.endT, s.dur, false⟩
+/-- `ExpiredShards`, loaded part: the shard's own (cached) duration decides — unless the
+refresh of this run could not reach the shard object (it is in `nilShardMap`): then the entry
+meta just sent decides, below. -/
+def expiredLoaded (now : Int) (eng : List EShard) (nm : List DurInfo) : List QItem :=
+  (eng.filter fun s => !(nm.any fun i => i.sid == s.sid) && shardIsExpired now s.dur s.endT).map
+    fun s => ⟨s.sid, s.gid, s.endT, s.dur, false⟩
 
 /-- `ExpiredShards`, not-loaded part (`containSid` skips ids already reported). -/
 def expiredNil (now : Int) (res : List QItem) (nm : List DurInfo) : List QItem :=
@@ -163,7 +166,7 @@ def expiredNil (now : Int) (res : List QItem) (nm : List DurInfo) : List QItem :
     fun i => ⟨i.sid, i.gid, i.endT, i.dur, true⟩
 
 def expiredShards (now : Int) (eng : List EShard) (nm : List DurInfo) : List QItem :=
-  let l := expiredLoaded now eng
+  let l := expiredLoaded now eng nm
   l ++ expiredNil now l nm
 
 /-- the harness hands the service the result sorted by shard id (Go map order is random). -/
@@ -224,17 +227,21 @@ def evs (o : Outcome) (r : DelRes) (panics : Bool) (q : QItem) (now : Int) : Lis
   (if r = .ok ∨ r = .closedErr ∨ r = .timedOut then [⟨.deletedShard, q.sid, q.endT, q.dUsed, now⟩] else []) ++
   (if o.pruneOk && !panics then [⟨.prunedShard, q.sid, q.endT, q.dUsed, now⟩] else [])
 
+def markStage (ok : Bool) (gid : Nat) (cat : List Group) : List Group :=
+  if ok then markGroup gid cat else cat
+
+def pruneStage (ok : Bool) (id : Nat) (cat : List Group) : List Group :=
+  if ok && !pruneWouldPanic cat then pruneCat id cat else cat
+
 /-- the body of the `for i := range expiredShards` loop of `HandleLocalStorage`:
 DeleteShardGroup(mark) ; DeleteShardOrIndex ; PruneGroupsCommand — each attempted whatever the
 previous one returned. -/
 def procItem (o : Outcome) (q : QItem) (σ : St) : St :=
-  let cat1 := if o.markOk then markGroup q.gid σ.cat else σ.cat
+  let cat1 := markStage o.markOk q.gid σ.cat
   let r := delRes o.del q.sid σ.eng σ.pending
-  let panics := pruneWouldPanic cat1
-  let cat2 := if o.pruneOk && !panics then pruneCat q.sid cat1 else cat1
-  { σ with cat := cat2, eng := delEng r q.sid σ.eng, disk := delDisk r q.sid σ.disk,
+  { σ with cat := pruneStage o.pruneOk q.sid cat1, eng := delEng r q.sid σ.eng, disk := delDisk r q.sid σ.disk,
            pending := delPending r q.sid σ.pending,
-           log := evs o r panics q σ.clock ++ σ.log }
+           log := evs o r (pruneWouldPanic cat1) q σ.clock ++ σ.log }
 
 inductive Op
   | tick (dt : Int)             -- time passes
